@@ -73,6 +73,13 @@ def impl_dp(c):
             a, new_gpts=(c["mx"], c["my"]), return_complex=True, fftshift=c["shift"], normalize=False)))
 
 
+def impl_cropm(c):
+    from abtem.measurements import DiffractionPatterns
+
+    a = np.array(c["x"], dtype=np.int64).reshape(c["nx"], c["ny"])
+    return _try(lambda: ["ok"] + _flat(DiffractionPatterns._crop(a, gpts=(c["mx"], c["my"]), fftshift=c["shifted"])))
+
+
 def impl_parity(c):
     from abtem.waves import _ensure_parity
 
@@ -221,6 +228,9 @@ class C14(Property):
                 c2["mx"], c2["my"] = nx, ny
             jobs.append(("Waves._diffraction_pattern (fft2 := id)", c2,
                          f"dp {nx} {ny} {c2['mx']} {c2['my']} {bool_s(c2['shift'])} {list_s(c['x'])}", lambda c=c2: impl_dp(c)))
+            c4 = dict(c, op="cropm", shifted=rng.random() < 0.5, batch=False)
+            jobs.append(("DiffractionPatterns._crop", c4, f"cropm {nx} {ny} {mx} {my} {bool_s(c4['shifted'])} {list_s(c['x'])}",
+                         lambda c=c4: impl_cropm(c)))
             c3 = {"op": "unshift", "nx": nx, "ny": ny, "x": c["x"]}
             jobs.append(("ifftshift 2-D", c3, f"unshift {nx} {ny} {list_s(c['x'])}",
                          lambda c=c3: ["ok"] + _flat(np.fft.ifftshift(np.array(c["x"]).reshape(c["nx"], c["ny"]), axes=(-2, -1)))))
@@ -322,7 +332,7 @@ class C14(Property):
              "parity": rng.choice(["odd", "odd", "even", "same", "none"]),
              "max_angle": rng.choice(["cutoff", "valid", "full", "num", "num", "numbig"])}
         c["angle_frac"] = dyadic(rng, 0.125, 1, 3)
-        c["block"] = rng.choice(["none", "r", "r", "r_margin", "default", "default_margin", "kwTrue", "kwFloat"])
+        c["block"] = rng.choice(["none", "r", "r", "r_margin", "default", "default_margin", "kwTrue", "kwNpTrue", "kwFloat", "kwNpFloat"])
         c["block_frac"] = dyadic(rng, 0, 0.75, 3)
         return c
 
@@ -365,6 +375,26 @@ class C14(Property):
             ctx.violation("unshifted-not-ifftshift", c, {"shape": list(m)}); ok = False
         if ds.fftshift is not True or dn.fftshift is not False:
             ctx.violation("fftshift-flag", c, {}); ok = False
+        # DiffractionPatterns.crop (a pattern cropped to a maximum angle / shape after the fact) == the same centred crop
+        fulln = w.diffraction_patterns(max_angle="full", fftshift=False, parity=c["parity"])
+        for src, shifted in ((full, True), (fulln, False)):
+            for how in ("gpts", "max_angle"):
+                if how == "gpts":
+                    cr = src.crop(gpts=tuple(int(v) for v in m))
+                    mm = tuple(int(v) for v in m)
+                else:
+                    ang = c["angle_frac"] * amax
+                    cr = src.crop(max_angle=ang)
+                    mm = tuple(int(2 * np.round(ang / s)) + 1 for s in src.angular_sampling)
+                ac = arr_of(cr)
+                e = centred_resize(a_full, mm)
+                if not shifted:
+                    e = np.fft.ifftshift(e, axes=(-2, -1))
+                if ac.shape != e.shape or not np.array_equal(ac, e) or bool(cr.fftshift) != shifted:
+                    ctx.violation(f"crop-method-{'shifted' if shifted else 'unshifted'}-not-centred-crop", c,
+                                  {"how": how, "shape": list(ac.shape), "expected_shape": list(e.shape), "flag": bool(cr.fftshift)})
+                    ok = False
+                ctx.count(f"conf-crop-method:{how}:shifted={shifted}")
         # block_direct
         if c["block"] != "none":
             for d, a, shifted in ((ds, a_s, True), (dn, a_n, False)):
@@ -373,23 +403,27 @@ class C14(Property):
                 semi = c["semi"]
                 r_user = c["block_frac"] * min(d.max_angles) if min(d.max_angles) > 0 else 0.5
                 kind = c["block"]
-                if kind == "kwFloat" and not r_user > 0:  # `block_direct=0.0` is falsy: nothing is blocked, by the keyword's contract
+                if kind in ("kwFloat", "kwNpFloat") and not r_user > 0:  # `block_direct=0.0` is falsy: nothing is blocked, by the keyword's contract
                     kind = "r"
                 if kind in ("r", "r_margin"):
                     mg = kind == "r_margin"
                     b = d.block_direct(radius=r_user, margin=mg)
                     r_eff = r_user + (maxs if mg else 0.0)
-                elif kind in ("default", "default_margin", "kwTrue"):
+                elif kind in ("default", "default_margin", "kwTrue", "kwNpTrue"):
                     mg = True if kind == "default_margin" else None
-                    if kind == "kwTrue":
-                        b = w.diffraction_patterns(max_angle=ma, fftshift=shifted, parity=c["parity"], block_direct=True)
+                    if kind in ("kwTrue", "kwNpTrue"):
+                        b = w.diffraction_patterns(max_angle=ma, fftshift=shifted, parity=c["parity"],
+                                                   block_direct=True if kind == "kwTrue" else np.True_)
                     else:
                         b = d.block_direct(margin=mg)
                     r_eff = semi if semi is not None else maxs * 1.0001
                     if mg or (mg is None and semi is not None):
                         r_eff += maxs
                 else:  # kwFloat
-                    b = w.diffraction_patterns(max_angle=ma, fftshift=shifted, parity=c["parity"], block_direct=float(r_user))
+                    b = w.diffraction_patterns(max_angle=ma, fftshift=shifted, parity=c["parity"],
+                                               block_direct=float(r_user) if kind == "kwFloat" else np.float32(r_user))
+                    if kind == "kwNpFloat":
+                        r_user = float(np.float32(r_user))
                     r_eff = r_user + (maxs if semi is not None else 0.0)
                 ab = arr_of(b)
                 fx = np.fft.fftfreq(m[0]) * m[0]
@@ -403,7 +437,7 @@ class C14(Property):
                 bad_zero = np.argwhere(must_zero & np.any(ab.reshape((-1,) + tuple(m)) != 0, axis=0))
                 bad_keep = np.argwhere(must_keep & np.any((ab != a).reshape((-1,) + tuple(m)), axis=0))
                 if len(bad_zero) or len(bad_keep):
-                    key = ("block-direct-true-keyword" if kind == "kwTrue" else
+                    key = ("block-direct-true-keyword" if kind in ("kwTrue", "kwNpTrue") else
                            "block-direct-shifted-wrong-pixels" if shifted else "block-direct-unshifted-wrong-pixels")
                     ctx.violation(key, c, {"kind": kind, "shape": list(m), "r_eff": float(r_eff), "not_zeroed": bad_zero[:4].tolist(),
                                            "changed_outside": bad_keep[:4].tolist()})
